@@ -81,6 +81,23 @@ Theorem C11_find_buckets_returns_owner :
 Proof. exact find_buckets_returns_owner. Qed.
 Print Assumptions C11_find_buckets_returns_owner.
 
+(* Remove(filter) = `iter = GetBegin(); while (iter) { if (filter(item)) iter = Remove(iter); else ++iter; }` with Remove(iter) = pvRemove (generation through pvFindBuckets, last item of the bucket moved into the hole, iterator re-created at the hole and pvInc'ed), run in ANY state satisfying Inv, across all coexisting generations: it terminates without assertion, removes exactly the elements satisfying the filter, returns their number, keeps Inv, the chain and the capacity.  (Also part of C11_history_refines_set now.) *)
+Theorem C11_remove_if_any_state :
+  forall (B : Type) (b0 : B) (decode : Z -> B -> Z) (upd_bound : B -> Z -> B) (h : Z -> Z) (cap : Z) 
+           (wf0 : bool) (wfull : Z -> bool) (start : Z -> Z -> Z) (next : Z -> Z -> Z -> Z) (logStart : Z)
+           (calcCapacity shift : Z -> Z) (nothrowReloc : bool),
+         kind_ok B decode upd_bound cap wfull start next logStart shift ->
+         forall (s : hset B) (m q : Z),
+         Inv B b0 decode h cap wf0 start next nothrowReloc s ->
+         exists s' : hset B,
+           step B b0 decode upd_bound h cap wf0 wfull start next logStart calcCapacity shift nothrowReloc s (ORemoveIf m q) =
+           Some (s', RNum (Z.of_nat (length (filter (fun k : Z => k mod m =? q) (abs B s))))) /\
+           Inv B b0 decode h cap wf0 start next nothrowReloc s' /\
+           Permutation (abs B s') (filter (fun k : Z => negb (k mod m =? q)) (abs B s)) /\
+           length (gens B s') = length (gens B s) /\ capacity B s' = capacity B s.
+Proof. exact remove_if_any_state. Qed.
+Print Assumptions C11_remove_if_any_state.
+
 (* removable.  In every state satisfying Inv (e.g. an interrupted migration with 3 generations) Remove(key) of a present key succeeds, removes exactly that key, keeps Inv and the chain; afterwards the key is not found. *)
 Theorem C11_removable :
   forall (B : Type) (b0 : B) (decode : Z -> B -> Z) (upd_bound : B -> Z -> B) (h : Z -> Z) (cap : Z) 
@@ -153,6 +170,65 @@ Theorem C11_grow_refused_insert_succeeds_unless_path_full :
             (OInsert k false false true sch) = Some (s, RFull)).
 Proof. exact grow_refused_insert_succeeds_unless_path_full. Qed.
 Print Assumptions C11_grow_refused_insert_succeeds_unless_path_full.
+
+(* the clause of the property as stated: when the table has to grow and the memory manager refuses the new bucket array, a
+   single-element insertion of a new key (1) succeeds on the existing table as soon as ANY bucket of that table has a free
+   slot, (2) answers "Hash table is full" (state unchanged) ONLY IF every bucket of the table is full, i.e. literally every
+   slot is taken (at least maxCount * bucketCount items in it), and (3) does answer "full" in that case.  The probe path of
+   pvAddNogrow is the whole table: kind_ok2 (proved below for linear AND triangular probing, the latter by the
+   number-theoretic coverage theorem copied from C13 into ProbeSeq.v). *)
+Theorem C11_insert_fails_only_if_every_slot_on_probe_path_taken :
+  forall (B : Type) (b0 : B) (decode : Z -> B -> Z) (upd_bound : B -> Z -> B) (h : Z -> Z) (cap : Z) 
+           (wf0 : bool) (wfull : Z -> bool) (start : Z -> Z -> Z) (next : Z -> Z -> Z -> Z) (logStart : Z)
+           (calcCapacity shift : Z -> Z) (nothrowReloc : bool),
+         kind_ok B decode upd_bound cap wfull start next logStart shift ->
+         kind_ok2 cap start next calcCapacity ->
+         kind_ok3 calcCapacity ->
+         forall (s : hset B) (t : table B) (r : list (table B)) (k : Z) (sch : list bool),
+         Inv B b0 decode h cap wf0 start next nothrowReloc s ->
+         gens B s = t :: r ->
+         ~ In k (abs B s) ->
+         (count B s <? capacity B s) = false ->
+         ((exists b : bucket B, In b (tbs B t) /\ isFull B cap b = false) ->
+          exists s' : hset B,
+            step B b0 decode upd_bound h cap wf0 wfull start next logStart calcCapacity shift nothrowReloc s
+              (OInsert k false false true sch) = Some (s', RInserted) /\
+            Inv B b0 decode h cap wf0 start next nothrowReloc s' /\
+            Permutation (abs B s') (k :: abs B s) /\ capacity B s' = capacity B s /\ (length (gens B s') <= length (gens B s))%nat) /\
+         (step B b0 decode upd_bound h cap wf0 wfull start next logStart calcCapacity shift nothrowReloc s
+            (OInsert k false false true sch) = Some (s, RFull) ->
+          (forall b : bucket B, In b (tbs B t) -> isFull B cap b = true) /\ cap * bcount B t <= Z.of_nat (length (tkeys B t))) /\
+         ((forall b : bucket B, In b (tbs B t) -> isFull B cap b = true) ->
+          step B b0 decode upd_bound h cap wf0 wfull start next logStart calcCapacity shift nothrowReloc s
+            (OInsert k false false true sch) = Some (s, RFull)).
+Proof. exact insert_fails_only_if_every_slot_on_probe_path_taken. Qed.
+Print Assumptions C11_insert_fails_only_if_every_slot_on_probe_path_taken.
+
+(* interplay with the size loop of pvAddGrow (/repo 7a001ad): after ANY history followed by ANY number k of consecutive
+   refused growths (fallback insertions overloading the table, or "full"), one granted failure-free insertion at a growth
+   point succeeds, picks a table that is large enough (mCount <= mCapacity <= physical size), migrates every element of
+   every older generation and leaves exactly ONE generation with the same contents plus the new key. *)
+Theorem C11_granted_growth_after_refusals :
+  forall (B : Type) (b0 : B) (decode : Z -> B -> Z) (upd_bound : B -> Z -> B) (h : Z -> Z) (cap : Z) 
+           (wf0 : bool) (wfull : Z -> bool) (start : Z -> Z -> Z) (next : Z -> Z -> Z -> Z) (logStart : Z)
+           (calcCapacity shift : Z -> Z) (nothrowReloc : bool),
+         kind_ok B decode upd_bound cap wfull start next logStart shift ->
+         kind_ok2 cap start next calcCapacity ->
+         kind_ok3 calcCapacity ->
+         forall (os : list op) (ks : list Z) (s : hset B) (outs : list out) (k : Z),
+         run B b0 decode upd_bound h cap wf0 wfull start next logStart calcCapacity shift nothrowReloc 
+           (hinit B) (os ++ map (fun x : Z => OInsert x false false true []) ks) = Some (s, outs) ->
+         gens B s <> [] ->
+         ~ In k (abs B s) ->
+         capacity B s <= count B s ->
+         exists s1 : hset B,
+           step B b0 decode upd_bound h cap wf0 wfull start next logStart calcCapacity shift nothrowReloc s (fresh_insert k) =
+           Some (s1, RInserted) /\
+           Inv B b0 decode h cap wf0 start next nothrowReloc s1 /\
+           length (gens B s1) = 1%nat /\
+           count B s1 = count B s + 1 /\ count B s1 <= capacity B s1 /\ CapOk B cap s1 /\ Permutation (abs B s1) (k :: abs B s).
+Proof. exact granted_growth_after_refusals. Qed.
+Print Assumptions C11_granted_growth_after_refusals.
 
 (* later_ops_complete_migration.  From any state satisfying Inv whose capacity does not exceed the physical size of the
    newest table (true for every reachable state: next theorem), failure-free insertions of fresh keys never terminate the
@@ -252,11 +328,23 @@ Theorem C11_concrete_kind_ok :
 Proof. exact concrete_kind_ok. Qed.
 Print Assumptions C11_concrete_kind_ok.
 
-(* kind_ok2 holds for linear probing (LimP4 / One) with both capacity policies (for triangular probing the coverage part is theorem C13_open2n2_probe_sequence_complete). *)
+(* kind_ok2 holds for linear probing (LimP4 / One) with both capacity policies (triangular probing: next theorem). *)
 Theorem C11_linear_kind_ok2 :
   forall c : config, 0 < c_cap c -> c_probe c = 0 -> kind_ok2 (c_cap c) start_mask (cfg_next c) (cfg_cc c).
 Proof. exact linear_kind_ok2. Qed.
 Print Assumptions C11_linear_kind_ok2.
+
+(* kind_ok2 holds for triangular probing (Open2N2 / Open8) on power-of-two tables: every bucket is reached within bucketCount probes (tri_inj + pigeonhole, ProbeSeq.v copied from C13). *)
+Theorem C11_tri_kind_ok2 :
+  forall c : config, 0 < c_cap c -> c_probe c <> 0 -> kind_ok2 (c_cap c) start_mask (cfg_next c) (cfg_cc c).
+Proof. exact tri_kind_ok2. Qed.
+Print Assumptions C11_tri_kind_ok2.
+
+(* hence kind_ok2 for every configuration of the extracted model. *)
+Theorem C11_concrete_kind_ok2 :
+  forall c : config, 0 < c_cap c -> kind_ok2 (c_cap c) start_mask (cfg_next c) (cfg_cc c).
+Proof. exact concrete_kind_ok2. Qed.
+Print Assumptions C11_concrete_kind_ok2.
 
 (* kind_ok3 holds for both capacity policies (HashBucketBase: 5/8, 3/2, 2 per bucket; open addressing: 11/12 and 13/14 of the slots). *)
 Theorem C11_concrete_kind_ok3 :
